@@ -108,6 +108,16 @@ def c01_1(c: Ctx) -> None:
         elif isinstance(st, (ast.Assign, ast.AnnAssign, ast.AugAssign)):
             tg = st.targets if isinstance(st, ast.Assign) else [st.target]
             flows = any(isinstance(t, ast.Name) and t.id in it_names for t in tg)
+            if not flows:
+                # bound to a local first (`typed = self.handlers.get(k)`), handed on by `<iterated list>.extend(typed or [])` / `+=` / a concatenation in the loop's iterable
+                locs = {t.id for t in tg if isinstance(t, ast.Name)}
+                for n2 in own_nodes_list(u):
+                    if isinstance(n2, ast.Call) and call_name(n2) == 'extend' and isinstance(n2.func, ast.Attribute) and U(n2.func.value) in it_names and n2.args and locs & {x.id for x in ast.walk(n2.args[0]) if isinstance(x, ast.Name)}:
+                        flows = True
+                    if isinstance(n2, ast.AugAssign) and U(n2.target) in it_names and locs & {x.id for x in ast.walk(n2.value) if isinstance(x, ast.Name)}:
+                        flows = True
+                if locs & it_names:
+                    flows = True
         if flows:
             c.ok(where(u, node), f'handlers looked up under {k} reach the selection loop')
         else:
@@ -184,6 +194,19 @@ def _c01_1_tail(c: Ctx, uv: Unit) -> None:
             c.fail(uv, f'instances of {desc} carry event_type {carried!r}', f'event_type of {desc} is {carried!r}, not {want!r}: class-pattern registrations never match')
 
 
+def lookup_locals(u: Unit) -> set[str]:
+    """Locals bound to a lookup of the handler registry: `x = self.handlers.get(k[, default])` / `x = self.handlers[k]`."""
+    out: set[str] = set()
+    for n in own_nodes_list(u):
+        if isinstance(n, (ast.Assign, ast.AnnAssign)) and n.value is not None:
+            t = n.targets[0] if isinstance(n, ast.Assign) else n.target
+            v = n.value
+            if isinstance(t, ast.Name) and ((isinstance(v, ast.Call) and call_name(v) == 'get' and isinstance(v.func, ast.Attribute) and isinstance(v.func.value, ast.Attribute) and v.func.value.attr == 'handlers')
+                                            or (isinstance(v, ast.Subscript) and isinstance(v.value, ast.Attribute) and v.value.attr == 'handlers')):
+                out.add(t.id)
+    return out
+
+
 def own_nodes_list(u: Unit) -> list[ast.AST]:
     from sa.loader import own_nodes
 
@@ -249,6 +272,23 @@ def c01_2(c: Ctx) -> None:
     atom = U(wcl[0])
     # stores into the returned dict
     rets = [n for n in own_nodes_list(u) if isinstance(n, ast.Return) and n.value is not None]
+    empty = [r for r in rets if (isinstance(r.value, ast.Dict) and not r.value.keys) or (isinstance(r.value, ast.Call) and U(r.value.func) == 'dict' and not r.value.args and not r.value.keywords)]
+    if empty:
+        # a fast path `return {}` is the zero-iteration result: allowed exactly where every looked-up handler list is known to be empty
+        looked_up = lookup_locals(u)
+        from sa.facts import entails
+
+        for r in empty:
+            ok_fast = False
+            if looked_up:
+                fa = Facts(lambda a: a in looked_up, cg=c.cg, unit=u)
+                guard = ' and '.join(f'(not {n})' for n in sorted(looked_up))
+                ok_fast = all(q.guard_search(g, n, guard, fa) is None for n in g.nodes_of(r))
+            if ok_fast:
+                c.ok(where(u, r), 'fast path `return {}` only when every looked-up handler list is empty (the selection loop would run zero times)')
+            else:
+                c.fail(u, f'returns an empty mapping at `{q.stmt_text(r, 40)}` although handlers may be registered', 'registered handlers are dropped by an early return', node=r)
+        rets = [r for r in rets if r not in empty]
     ret_names = {U(r.value) for r in rets}
     if len(ret_names) != 1:
         raise AnalysisError(f'{u}: expected one returned container, saw {sorted(ret_names)}')
@@ -427,10 +467,16 @@ def exec_handler_sites(c: Ctx) -> tuple[Unit, list[ast.Call]]:
     target = c.unit(SVC, 'EventBus.execute_handler')
     sites = [call for cu, call in c.cg.callers(target) if cu.key == u.key]
     # a nested coroutine of _execute_handlers that awaits execute_handler exactly once on every path is a wrapper of it: the calls of the wrapper are the sites
-    for w in c.prog.nested(u):
+    known = c.prog._known
+    new_methods = [x for x in c.prog.units.values() if x.module == SVC and x.cls == 'EventBus' and (x.module, x.qualname) not in known and x.key != u.key]
+    for w in list(c.prog.nested(u)) + new_methods:
         inner = [call for cu, call in c.cg.callers(target) if cu.key == w.key]
         if not inner or not w.is_async:
             continue
+        if not any(cu.key == u.key for cu, _ in c.cg.callers(w)):
+            continue
+        if any(q.enclosing(x, (ast.For, ast.AsyncFor, ast.While)) is not None for x in inner):
+            continue  # a helper that loops over the handlers is not a wrapper of one call (the inliner folds it into _execute_handlers when it can)
         gw = c.cfg(w)
         call_nodes = {n.id for n in gw.live_nodes() if q.node_calls(n, 'execute_handler')}
         from sa.cfg import search
@@ -531,6 +577,16 @@ def check_handler_site(c: Ctx, u: Unit, g, call: ast.Call) -> str | None:
     gathers = [n for n in own_nodes_list(u) if isinstance(n, ast.Await) and isinstance(n.value, ast.Call) and call_name(n.value) == 'gather'
                and any(isinstance(a, ast.Starred) and container in U(a.value) for a in n.value.args)]
     loops2 = [n for n in own_nodes_list(u) if isinstance(n, ast.For) and n is not loop and container in U(n.iter)]
+    waits_all = [n for n in own_nodes_list(u) if isinstance(n, ast.Await) and isinstance(n.value, ast.Call) and U(n.value.func) in ('asyncio.wait', 'wait') and n.value.args and container in U(n.value.args[0])]
+    if waits_all and not gathers:
+        for wn in waits_all:
+            rw = q.kw(wn.value, 'return_when')
+            why = 'asyncio.wait() does not forward a cancellation of the waiting task to the handler tasks (awaiting each task does): when the waiter is cancelled — a parent handler\'s timeout, stop() — the handlers keep ' \
+                  'running as orphans, are never recorded as cancelled, and the next event starts while they run'
+            if rw is not None and 'ALL_COMPLETED' not in U(rw):
+                why = f'asyncio.wait(return_when={U(rw)}) returns before every handler task has finished'
+            c.fail(u, f'handler tasks awaited with `{U(wn)[:60]}`', why, node=wn)
+        return src
     if gathers:
         for gth in gathers:
             rex = q.kw(gth.value, 'return_exceptions')
